@@ -172,6 +172,7 @@ type Process struct {
 	flowNodeMapping    *FlowNodeMapping
 	flowWaitGroup      sync.WaitGroup
 	complete           sync.RWMutex
+	monitorOnce        sync.Once
 	eventConsumersLock sync.RWMutex
 	eventConsumers     []event.IConsumer
 	subTracer          tracing.ITracer
@@ -605,10 +606,19 @@ func (p *Process) StartWith(ctx context.Context, element schema.FlowNodeInterfac
 		// StartAll cease flow monitor. It has to be subscribed before the start
 		// event is triggered, otherwise it can miss the start event's flow trace
 		// and never report completion.
-		sender := p.tracer.RegisterSender()
-		monitor := p.ceaseFlowMonitor(p.subTracer)
+		//
+		// There is one monitor per instance: it waits for every start event, so
+		// starting a further start event must not launch (and block on) another one.
+		var monitor func(ctx context.Context, sender tracing.ISenderHandle)
+		var sender tracing.ISenderHandle
+		p.monitorOnce.Do(func() {
+			sender = p.tracer.RegisterSender()
+			monitor = p.ceaseFlowMonitor(p.subTracer)
+		})
 		eventNode.Trigger(ctx)
-		go monitor(ctx, sender)
+		if monitor != nil {
+			go monitor(ctx, sender)
+		}
 		p.tracer.Send(InstantiationTrace{InstanceId: p.id})
 
 	case *throwEvent:
